@@ -33,6 +33,11 @@ ALIASES = {'none': (0, 1, 2), 'x1x2': (0, 0, 2), 'outx1': (0, 1, 0), 'outx2': (0
 SC_REAL = {'0': [0], '1': [1], '-1': [-1], 'gen': [2, -3, 0.5, -0.25, 1.5]}
 SC_CPLX = {'cplx': [1j, 1 + 1j, -0.5 + 2j]}
 SC_INT = {'0': [0], '1': [1], '-1': [-1], 'gen': [2, -3, 5]}
+TINY = 2.0 ** -40   # exactly representable; |a+b| far below any 'isclose' tolerance
+# (ca, cb, a, b): effective scalar a+b tiny but non-zero; exact in float64/complex128
+NEAR_CANCEL = [('1', 'ncancel', 1, -1 + TINY), ('ncancel', '-1', 1 + TINY, -1),
+               ('tiny', '0', TINY, 0), ('0', 'tiny', 0, TINY), ('tiny', 'tiny', TINY, TINY),
+               ('gen', 'ncancel', 2, -2 + TINY)]
 
 
 def cs(z):
@@ -50,6 +55,46 @@ def cl(arr):
     if np.iscomplexobj(flat):
         return ','.join(cs(z) for z in flat.tolist())
     return ','.join(fs(z) for z in flat.tolist())
+
+
+def wide(arr):
+    """C-order flat complex128 copy (exact widening of float32/64, complex64/128 and small ints)."""
+    return np.asarray(arr).ravel(order='C').astype(np.complex128)
+
+
+def cl8(arr):
+    """Fast wire form for arrays whose entries are multiples of 1/8 (all generated inputs)."""
+    w = wide(arr) * 8
+    re = np.rint(w.real).astype(np.int64)
+    im = np.rint(w.imag).astype(np.int64)
+    if w.size == 0:
+        return '-'
+    if not (np.array_equal(re, w.real) and np.array_equal(im, w.imag)):
+        return cl(arr)   # not on the 1/8 grid: slow exact path
+    if not im.any():
+        return ','.join('{}/8'.format(k) for k in re.tolist())
+    return ','.join('{}/8:{}/8'.format(k, m) for k, m in zip(re.tolist(), im.tolist()))
+
+
+def _tokf(t):
+    if '/' in t:
+        p, q = t.split('/')
+        return int(p) / int(q)    # exact: dyadic denominators, numerators < 2^53
+    return float(int(t))
+
+
+def parse_wide(s):
+    """Model answer list -> complex128 array (exact for the dyadic values on this stream)."""
+    if s in ('', '-'):
+        return np.zeros(0, dtype=np.complex128)
+    out = np.empty(s.count(',') + 1, dtype=np.complex128)
+    for i, t in enumerate(s.split(',')):
+        if ':' in t:
+            a, b = t.split(':')
+            out[i] = complex(_tokf(a), _tokf(b))
+        else:
+            out[i] = _tokf(t)
+    return out
 
 
 def fval(z):
@@ -110,6 +155,8 @@ def make_elem(space, vals, layout, rng):
     """Element of `space` with the given flat (C-order) values and memory layout."""
     shape = space.shape
     arr = np.asarray(vals, dtype=space.dtype).reshape(shape)
+    if layout == 'mixed':
+        layout = rng.choice(['C', 'F'])
     if layout == 'C':
         data = np.ascontiguousarray(arr)
     elif layout == 'F':
@@ -132,10 +179,10 @@ def lincomb_cases(ctx, small, medium):
     rng = ctx.rng
     quick = ctx.quick
     sizes_small = [1, 6, small - 1] if small > 1 else [1]
-    sizes_medium = [small, small + 1, 360]
+    sizes_medium = [small, small + 1] if quick else [small, small + 1, 360]
     sizes_large = [medium - 1, medium, medium + 1]
     dtypes = ['float32', 'float64', 'complex64', 'complex128', 'int32', 'int64']
-    layouts = ['C', 'F', 'strided']
+    layouts = ['C', 'F', 'strided', 'mixed']
     plans = []
     for size in sizes_small + sizes_medium:
         for dt in dtypes:
@@ -154,6 +201,10 @@ def lincomb_cases(ctx, small, medium):
     large_keep = [(medium, 'float64', 'C', al, 'few') for al in ALIASES]
     large_keep += [(medium - 1, 'float64', 'C', 'outx1', 'few'),
                    (medium + 1, 'complex128', 'F', 'all', 'few')]
+    # every buffer with its own contiguity (2-d shapes): the BLAS applicability test and the
+    # ravel order matter only here
+    large_keep += [(medium, dt, 'mixed', al, 'few') for dt in ('float64', 'float32')
+                   for al in ('none', 'x1x2', 'outx1', 'outx2')]
     large_keep += large_plans[:(6 if quick else 60)]
     if quick:
         # keep every (regime, dtype, layout, alias) but sample sizes inside the regime
@@ -169,7 +220,9 @@ def lincomb_cases(ctx, small, medium):
     plans = plans + sorted(set(large_keep))
     for size, dt, layout, alias, breadth in plans:
         dtype = np.dtype(dt)
-        if size % 6 == 0 and size >= 12 and layout != 'C':
+        if layout == 'mixed' and size % 2 == 0 and size >= 4:
+            shape = (size // 2, 2)
+        elif size % 6 == 0 and size >= 12 and layout != 'C':
             shape = (size // 6, 6)
         elif size % 4 == 0 and size >= 8:
             shape = (size // 4, 4)
@@ -187,10 +240,15 @@ def lincomb_cases(ctx, small, medium):
         combos = list(itertools.product(classes, classes))
         if breadth == 'few' or (quick and size > 8):
             rng.shuffle(combos)
-            combos = combos[:(1 if quick else 2) if size >= medium - 1 else 6]
-        for ca, cb in combos:
-            a = rng.choice(classes[ca])
-            b = rng.choice(classes[cb])
+            combos = combos[:(1 if quick else 2) if size >= medium - 1 else (3 if quick else 6)]
+        todo = [(ca, cb, rng.choice(classes[ca]), rng.choice(classes[cb])) for ca, cb in combos]
+        if dt in ('float64', 'complex128'):
+            nc = list(NEAR_CANCEL)
+            if quick or breadth == 'few':
+                rng.shuffle(nc)
+                nc = nc[:1]
+            todo += nc
+        for ca, cb, a, b in todo:
             yield dict(kind='lincomb', size=size, shape=shape, dtype=dt, layout=layout,
                        alias=alias, a=a, b=b, ca=ca, cb=cb, space=space,
                        vseed=rng.getrandbits(32))
@@ -207,13 +265,16 @@ def run_lincomb_case(c, small, medium):
     vals = [rand_vals(r, size, dtype) for _ in range(3)]
     nan_out = False
     elems = {}
+    pattern = r.choice([('C', 'F', 'F'), ('F', 'C', 'C'), ('C', 'C', 'F'), ('F', 'F', 'C'),
+                        ('C', 'F', 'C')])
     for bid in sorted(set(ids)):
-        elems[bid] = make_elem(space, vals[bid], c['layout'], r)
+        elems[bid] = make_elem(space, vals[bid],
+                               pattern[bid] if c['layout'] == 'mixed' else c['layout'], r)
     x1, x2, out = elems[ids[0]], elems[ids[1]], elems[ids[2]]
     if ids[2] not in ids[:2] and not np.issubdtype(dtype, np.integer):
         out.data[...] = np.nan  # previous contents of a non-aliased output must not matter
         nan_out = True
-    pre = {bid: exact_list(vals[bid]) for bid in elems}
+    pre = {bid: wide(vals[bid]) for bid in elems}
     blas_ok = all(e.data.flags.c_contiguous for e in elems.values()) or \
         all(e.data.flags.f_contiguous for e in elems.values())
     blas_ok = blas_ok and dtype in (np.dtype('float32'), np.dtype('float64'),
@@ -223,31 +284,39 @@ def run_lincomb_case(c, small, medium):
                            np.zeros(size, dtype=dtype)) for bid in elems}
     line = 'lincomb size={} blas={} x1={} x2={} out={} a={} b={} n={} m0={} m1={} m2={}'.format(
         size, int(blas_ok), ids[0], ids[1], ids[2], cs(a), cs(b), size,
-        cl(mem_for_model.get(0, [])), cl(mem_for_model.get(1, [])), cl(mem_for_model.get(2, [])))
+        cl8(mem_for_model.get(0, [])), cl8(mem_for_model.get(1, [])),
+        cl8(mem_for_model.get(2, [])))
     try:
         ret = space.lincomb(a, x1, b, x2, out=out)
         status = 'ok'
     except Exception as e:  # noqa
         status = 'err:' + type(e).__name__ + ':' + str(e)[:120]
         ret = None
-    post = {bid: exact_list(elems[bid].data) for bid in elems}
-    # oracle
-    fa, fb = fval(a), fval(b)
-    exp_out = [cadd(cmul(fa, u), cmul(fb, v)) for u, v in zip(pre[ids[0]], pre[ids[1]])]
+    post = {bid: wide(elems[bid].data) for bid in elems}
+    # oracle: exact by construction in complex128 (inputs k/8 with |k| <= 24, scalars with at
+    # most 41 significant bits); cross-checked with Fractions on small sizes
+    exp_out = complex(a) * pre[ids[0]] + complex(b) * pre[ids[1]]
+    if size <= 16:
+        fa, fb = fval(a), fval(b)
+        fexp = [cadd(cmul(fa, u), cmul(fb, v)) for u, v in
+                zip(exact_list(pre[ids[0]]), exact_list(pre[ids[1]]))]
+        if exact_list(exp_out) != fexp:
+            raise core.Infra('oracle arithmetic not exact for {}'.format(c))
     problems = []
     if status != 'ok':
         problems.append(status)
     else:
         if ret is not out:
             problems.append('lincomb did not return the given out object')
-        if post[ids[2]] != exp_out:
-            bad = [i for i, (p, q) in enumerate(zip(post[ids[2]], exp_out)) if p != q]
+        if not np.array_equal(post[ids[2]], exp_out):
+            bad = np.flatnonzero(~(post[ids[2]] == exp_out))
             problems.append('out != a*x1+b*x2 at {} entries, first index {}: got {} expected {}'
-                            .format(len(bad), bad[0], post[ids[2]][bad[0]], exp_out[bad[0]]))
+                            .format(len(bad), int(bad[0]), post[ids[2]][bad[0]],
+                                    exp_out[bad[0]]))
         for bid in elems:
-            if bid != ids[2] and post[bid] != pre[bid]:
+            if bid != ids[2] and not np.array_equal(post[bid], pre[bid]):
                 problems.append('operand buffer {} modified'.format(bid))
-    nontrivial = any(v != (0, 0) for v in exp_out)
+    nontrivial = bool(np.any(exp_out != 0))
     return line, status, post, problems, nontrivial
 
 
@@ -273,8 +342,8 @@ def compare_lincomb(ctx, cases, outs, small, medium):
             continue
         fields = dict(t.split('=', 1) for t in ans.split()[1:])
         for bid in post:
-            mv = parse_cl(fields['m{}'.format(bid)])
-            if mv != post[bid]:
+            mv = parse_wide(fields['m{}'.format(bid)])
+            if not np.array_equal(mv, post[bid]):
                 ctx.disagree(desc, 'buffer {} = {}'.format(bid, post[bid][:6]),
                              'buffer {} = {}'.format(bid, mv[:6]))
                 break
@@ -440,10 +509,27 @@ def elem_ops():
         ('isub_self', 'xx', lambda x, y, c: isub(x, x, c), 'sub'),
         ('imul_self', 'xx', lambda x, y, c: imul(x, x, c), 'mul'),
         ('idiv_self', 'xx/', lambda x, y, c: idiv(x, x, c), 'div'),
+        # array-like (nested list) operands: coerced through space.element(other)
+        ('l_sub', 'xl', lambda x, y, c: tolist(y) - x, 'rsub'),
+        ('l_add', 'xl', lambda x, y, c: tolist(y) + x, 'add'),
+        ('sub_l', 'xl', lambda x, y, c: x - tolist(y), 'sub'),
+        ('l_mul', 'xl', lambda x, y, c: tolist(y) * x, 'mul'),
+        ('mul_l', 'xl', lambda x, y, c: x * tolist(y), 'mul'),
+        ('l_div', 'x/l', lambda x, y, c: tolist(y) / x, 'rdiv'),
+        ('div_l', 'xl/', lambda x, y, c: x / tolist(y), 'div'),
+        ('iadd_l', 'xl', lambda x, y, c: iadd(x, tolist(y), c), 'add'),
+        ('isub_l', 'xl', lambda x, y, c: isub(x, tolist(y), c), 'sub'),
         ('zero', '0', lambda x, y, c: x.space.zero(), 'zero'),
         ('one', '0', lambda x, y, c: x.space.one(), 'one'),
     ]
     return ops
+
+
+def tolist(y):
+    import odl
+    if isinstance(y.space, odl.ProductSpace):
+        return [tolist(p) for p in y]
+    return y.asarray().tolist()
 
 
 def oracle_elem(spec, X, Y, c, d):
@@ -462,6 +548,10 @@ def oracle_elem(spec, X, Y, c, d):
         return [cadd(u, v) for u, v in zip(X, Y)]
     if spec == 'sub':
         return [cadd(u, neg(v)) for u, v in zip(X, Y)]
+    if spec == 'rsub':
+        return [cadd(v, neg(u)) for u, v in zip(X, Y)]
+    if spec == 'rdiv':
+        return [cdiv(v, u) for u, v in zip(X, Y)]
     if spec == 'mul':
         return [cmul(u, v) for u, v in zip(X, Y)]
     if spec == 'div':
@@ -518,6 +608,8 @@ def spec_line(spec, X, Y, c, d):
         return 'elem op=lincomb x={} y={} c={} d={}'.format(l(X), l(Y), s(c), s(d))
     if spec in ('add', 'sub', 'mul', 'div'):
         return 'elem op={} x={} y={}'.format(spec, l(X), l(Y))
+    if spec in ('rsub', 'rdiv'):
+        return 'elem op={} x={} y={}'.format(spec[1:], l(Y), l(X))
     if spec == 'neg':
         return 'elem op=neg x={}'.format(l(X))
     return 'elem op={} x={} c={}'.format(spec, l(X), s(c))
@@ -536,8 +628,8 @@ def elem_cases(ctx):
             if is_int and ('/' in kind):
                 continue  # true division is not closed on integer spaces (NumPy refuses)
             for rep in range(reps):
-                need_nz_y = kind in ('xy/', 'xx/')
-                need_nz_x = kind in ('x/c', 'xx/')
+                need_nz_y = kind in ('xy/', 'xx/', 'xl/')
+                need_nz_x = kind in ('x/c', 'xx/', 'x/l')
                 x = rand_elem(space, rng, nonzero=need_nz_x, tiny=('pow' in name))
                 y = x if kind.startswith('xx') else rand_elem(space, rng, nonzero=need_nz_y)
                 if is_int:
@@ -600,6 +692,8 @@ MODEL_OP = {'add': 'addE', 'sub': 'subE', 'mul': 'mulE', 'div': 'divE', 'iadd': 
             'imuls': 'imulS', 'idivs': 'idivS', 'add_self': 'addE', 'sub_self': 'subE',
             'mul_self': 'mulE', 'iadd_self': 'iaddE', 'isub_self': 'isubE',
             'imul_self': 'imulE', 'idiv_self': 'idivE', 'sp_multiply': None,
+            'l_sub': 'rsubE', 'l_add': 'addE', 'sub_l': 'subE', 'l_mul': 'mulE', 'mul_l': 'mulE',
+            'l_div': 'rdivE', 'div_l': 'divE', 'iadd_l': 'iaddE', 'isub_l': 'isubE',
             'el_lincomb1': None}
 
 
